@@ -46,6 +46,59 @@ def attrs_on(fn: ast.AST, name: str) -> Set[str]:
     return {n.attr for n in ast.walk(fn) if isinstance(n, ast.Attribute) and isinstance(n.value, ast.Name) and n.value.id == name}
 
 
+def _list_eq_law(ctx: Ctx, rule: str) -> None:
+    """== on constraint lists, run by the kernel interpreter on small lists: equal exactly when they hold the same
+    terms in the same positions - in particular never for lists of different lengths (a comparison over the common
+    prefix makes the empty list equal to everything, while the hashes differ)."""
+    from .termalg import DictV, Key, ListV, Raised, Rec, TermAlg, num, sym
+    from .termalg import Undecidable as _Und
+
+    prog = ctx.prog
+    fi = prog.resolve_method("PolyhedralTermList", "__eq__")
+    if fi is None:
+        return
+    construct = "PolyhedralTermList.__eq__: equal iff the same terms in the same positions (lists of different lengths differ)"
+    x, y = Key("x"), Key("y")
+
+    def term(cx, cy, c):
+        d = {}
+        if cx:
+            d[x] = num(cx)
+        if cy:
+            d[y] = num(cy)
+        return Rec("PolyhedralTerm", {"variables": DictV(d), "constant": num(c)})
+
+    def tl(ts):
+        return Rec("PolyhedralTermList", {"terms": ListV(list(ts))})
+
+    t1, t2, t3 = (1, 0, 4), (-1, 0, 0), (1, 1, 7)
+    cases = [
+        ([t1, t2], [t1, t2], True, "two copies of [t1, t2]"),
+        ([], [], True, "two empty lists"),
+        ([t1], [t1, t2], False, "[t1] and [t1, t2] (a strict prefix)"),
+        ([t1, t2], [t1], False, "[t1, t2] and [t1]"),
+        ([], [t1], False, "the empty list and [t1]"),
+        ([t1], [], False, "[t1] and the empty list"),
+        ([t1, t2], [t1, t3], False, "[t1, t2] and [t1, t3]"),
+        ([t1, t2], [t2, t1], False, "[t1, t2] and [t2, t1] (order is part of the list)"),
+    ]
+    try:
+        for a, b, want, label in cases:
+            ta = TermAlg(prog)
+            r = ta.call(fi, [tl(term(*t) for t in b)], {}, self_val=tl(term(*t) for t in a))
+            got = ta.truth(r)
+            if got is not want:
+                ctx.violation(rule, fi.key, construct, "%s compare %s" % (label, "equal" if got else "unequal"), where=fi.where)
+                return
+    except Raised as r_:
+        ctx.violation(rule, fi.key, construct, "raises %s on two constraint lists" % r_.cls, where=fi.where)
+        return
+    except (AnalysisError, _Und) as ex:
+        ctx.cannot_decide(rule, fi.key, construct, str(ex))
+        return
+    ctx.ok(rule, fi.key, construct)
+
+
 def rule_eq(ctx: Ctx, rule: str = "eq-fields") -> None:
     """C19 E1/E2/E5: __eq__ compares every state field of self with the same field of other (never a field with
     itself), combines the comparisons by conjunction, and guards the operand type the same way everywhere."""
@@ -126,6 +179,7 @@ def rule_eq(ctx: Ctx, rule: str = "eq-fields") -> None:
         okg = any(norm(g).replace(" ", "") == "isinstance(%s,type(%s))" % (ot, me) for g in guards)
         (ctx.ok(rule, fi.key, construct, nontrivial=False) if okg else ctx.violation(rule, fi.key, construct, "guards: %s" % [norm(g) for g in guards], where=fi.where))
     ctx.floor("field comparisons in __eq__ methods", n, 8)
+    _list_eq_law(ctx, rule)
     # NestedTermList: semantic equality = mutual <=
     fi = prog.func("NestedTermList.__eq__")
     ps = [p for p in Sim(prog, fi, assume=lambda v: const(True) if isinstance(v, tuple) and v[0] == "call" and v[1] == "isinstance" else None).paths() if p.terminal == "return"]
@@ -346,16 +400,24 @@ def dict_fields(prog: Program, cname: str) -> Set[str]:
             return True
         if isinstance(e, ast.Name) and depth < 3:
             return any(is_dict(d, depth + 1) for d in fl.defs.get(e.id, []))
+        if isinstance(e, ast.Call) and isinstance(e.func, ast.Name) and depth < 3:
+            # a helper of the package that is declared to return a dictionary
+            g = prog.resolve_name(init.module, e.func.id)
+            if g is not None and g.__class__.__name__ == "FuncInfo" and getattr(g.node, "returns", None) is not None:
+                t_ = norm(g.node.returns)
+                return t_.startswith(("Dict", "dict", "typing.Dict", "Mapping", "MutableMapping"))
         return False
 
     for node in ast.walk(init.node):
-        tg, val = None, None
+        tg, val, ann = None, None, None
         if isinstance(node, ast.Assign):
             tg, val = node.targets[0], node.value
         elif isinstance(node, ast.AnnAssign):
-            tg, val = node.target, node.value
-        if isinstance(tg, ast.Attribute) and isinstance(tg.value, ast.Name) and tg.value.id == me and val is not None and is_dict(val):
-            out.add(tg.attr)
+            tg, val, ann = node.target, node.value, node.annotation
+        if isinstance(tg, ast.Attribute) and isinstance(tg.value, ast.Name) and tg.value.id == me and val is not None:
+            declared = ann is not None and norm(ann).startswith(("Dict", "dict", "typing.Dict"))
+            if is_dict(val) or declared:
+                out.add(tg.attr)
     return out
 
 
@@ -825,8 +887,11 @@ def _nested_intersect_semantic(ctx: Ctx, rule: str, construct: str) -> Optional[
             def or_stub(ta, pos, kw):
                 a, b = pos[0], pos[1]
                 sa, sb = a.f.get("side"), b.f.get("side")
+                if sa is None or sb is None:
+                    raise AnalysisError("a conjunction of something that is not an alternative of either side")
                 if {sa, sb} != {"self", "other"}:
-                    raise AnalysisError("a conjunction of %s and %s alternatives" % (sa, sb))
+                    # two alternatives of the same side: whatever becomes of it, it is not a pair of the intersection
+                    return Rec("PolyhedralTermList", {"pair": ("two alternatives of %s" % sa, a.f["idx"], b.f["idx"]), "terms": ListV([])})
                 i, j = (a.f["idx"], b.f["idx"]) if sa == "self" else (b.f["idx"], a.f["idx"])
                 return Rec("PolyhedralTermList", {"pair": (i, j), "terms": ListV([])})
 
@@ -834,7 +899,7 @@ def _nested_intersect_semantic(ctx: Ctx, rule: str, construct: str) -> Optional[
                 pr = pos[0].f.get("pair")
                 if pr is None:
                     raise AnalysisError("emptiness asked of something that is not the conjunction of one alternative of each side")
-                return emp[pr]
+                return emp.get(pr, False)
 
             def init_stub(ta, pos, kw, seen=seen):
                 seen["list"] = pos[1] if len(pos) > 1 else kw.get("nested_termlist")
